@@ -24,6 +24,14 @@ def seeds():
         m = json.load(open(mp))
         rows.append(f"| {os.path.basename(d)} | {m.get('property','')} | {esc(m.get('title') or m.get('summary') or m.get('what_breaks',''))[:300]} | {esc(str(m.get('needs_to_manifest', m.get('needs',''))))[:300]} | {esc(m.get('detected_by') or m.get('detected',''))[:600]} |")
     return "\n".join(rows)
+def benign():
+    rows = ["| change | property | what it rewrites | output bits change | verdict of the quick check | obligations that no longer check |", "|---|---|---|---|---|---|"]
+    for d in sorted(glob.glob(os.path.join(ROOT, "benign", "*"))):
+        mp = os.path.join(d, "meta.json")
+        if not os.path.exists(mp): continue
+        m = json.load(open(mp))
+        rows.append(f"| {os.path.basename(d)} | {m.get('property','')} | {esc(m.get('title') or m.get('what_changes',''))[:300]} | {'yes' if m.get('bits_change') else 'no'} | {m.get('verdict','')} | {', '.join(m.get('broken_obligations') or []) or '—'} |")
+    return "\n".join(rows)
 def asbuilt():
     rows = ["| id | pinned theorems | Tie A (regenerated from /repo/src every run) | correspondence cases quick (distinct non-trivial) | oracle evaluations quick | not proved (explored by the oracle only / assumed) |", "|---|---|---|---|---|---|"]
     for p in sorted(glob.glob(os.path.join(ROOT, "tools", "props.d", "C*.json"))):
@@ -75,7 +83,7 @@ def summary():
             f"{len(seeds) - strengthened} at the first run and {strengthened} only after a generator / oracle was strengthened (each recorded in its `meta.json` and in D.3)")
 def main():
     p = os.path.join(ROOT, "DESIGN.md"); s = open(p).read()
-    for name, fn in (("findings", findings), ("seeds", seeds), ("asbuilt", asbuilt), ("axioms", axioms), ("summary", summary)):
+    for name, fn in (("findings", findings), ("seeds", seeds), ("benign", benign), ("asbuilt", asbuilt), ("axioms", axioms), ("summary", summary)):
         a, b = f"<!-- GEN:{name} -->", f"<!-- /GEN:{name} -->"
         if a in s and b in s:
             i, j = s.index(a) + len(a), s.index(b)
